@@ -201,7 +201,7 @@ def apalache_batch(sc, recs, name):
                 for fn in files:
                     if fn == "violation1.tla" or (fn.startswith("violation") and fn.endswith(".tla")):
                         txt = open(os.path.join(root, fn)).read()
-                        m = re.search(r"c = <<(-?\d+), (-?\d+), (-?\d+), (TRUE|FALSE), (-?\d+), (-?\d+)>>", txt.replace("\n", " "))
+                        m = re.search(r"\bc\s*=\s*<<\s*(-?\d+),\s*(-?\d+),\s*(-?\d+),\s*(TRUE|FALSE),\s*(-?\d+),\s*(-?\d+)\s*>>", txt)
                         if m:
                             cex = m.groups()
             res[inv] = cex or ("?",)
@@ -249,8 +249,11 @@ def check_C13(tier):
             if r["OK"] is not None:
                 bad_big += 1
                 cex = r["OK"]
-                rec = next((x for x in part if cex[0] == x["I"] and cex[1] == x["Q"] and cex[2] == x["M"]), None)
-                v.violation("C13 postcondition fails for 64-bit call %s" % (rec or (cex,)), dict(kind="rate-call-64", call=rec or list(cex)))
+                rec = next((x for x in part if len(cex) >= 3 and cex[0] == str(x["I"]) and cex[1] == str(x["Q"]) and cex[2] == str(x["M"])), None)
+                if rec is None:
+                    raise Inconclusive("Apalache rejects a batch of recorded 64-bit calls but the offending call could not be identified: %r" % (cex,))
+                v.violation("C13 postcondition fails for the recorded 64-bit call Rate{%s,%s}.%s(%s) = {%s,%s}, err=%r" % (
+                    rec["I"], rec["Q"], rec.get("Via", "Recalculate"), rec["M"], rec["RI"], rec["RQ"], rec["Err"]), dict(kind="rate-call-64", call=rec))
             if r["Conf"] is not None:
                 drift.append(("Conf64", r["Conf"]))
         nontriv = set()
